@@ -127,6 +127,7 @@ def _run(ctx):
     # ------------------------------------------------------------ R2 pairing
     ctx.floor("C02.R2", 7)
     involved = sorted(bank_callers | incdec | reset_callers)
+    ords = Ordinals()
     for fk in involved:
         f = prog.fns[fk]
         short = fk.split("::", 1)[1]
@@ -137,7 +138,7 @@ def _run(ctx):
             r, par = root_parity(f, c.args[1])
             match = [pc for pc, ps in pcalls if ps == side and root_parity(f, pc.args[1]) == (r, par)]
             if match:
-                ctx.inst("C02.R2", "pair/%s/bank-%s@%s" % (short, side, c.loc.split(":")[-1]), True, "bank total change is paired with a position change of the same value and sign", "paired with %s" % match[0].loc, c.loc)
+                ctx.inst("C02.R2", ords.key("pair/%s/bank-%s" % (short, side)), True, "bank total change is paired with a position change of the same value and sign", "paired with %s" % match[0].loc, c.loc)
                 continue
             # reset pairing: delta = -(pre-reset read of that side)
             okreset = False
@@ -163,13 +164,13 @@ def _run(ctx):
                     okreset = True
                 else:
                     why = "the position is reset but its pre-reset shares are not read before the reset"
-            ctx.inst("C02.R2", "pair/%s/bank-%s@%s" % (short, side, c.loc.split(":")[-1]), okreset,
+            ctx.inst("C02.R2", ords.key("pair/%s/bank-%s" % (short, side)), okreset,
                      "bank total change is paired with a position change of the same value and sign (or the negated pre-reset read of a reset position)",
                      "ok (reset pairing)" if okreset else "%s; root=%s parity=%d" % (why, r, par), c.loc)
         for c, side in pcalls:
             r, par = root_parity(f, c.args[1])
             match = [bc for bc, bs in bcalls if bs == side and root_parity(f, bc.args[1]) == (r, par)]
-            ctx.inst("C02.R2", "pair/%s/position-%s@%s" % (short, side, c.loc.split(":")[-1]), bool(match), "position change is paired with a bank total change of the same value and sign",
+            ctx.inst("C02.R2", ords.key("pair/%s/position-%s" % (short, side)), bool(match), "position change is paired with a bank total change of the same value and sign",
                      "paired with %s" % match[0].loc if match else "unpaired; root=%s parity=%d" % (r, par), c.loc)
         # every paired call is on every successful path once its partner is (no conditional half)
         for c, side in bcalls + pcalls:
